@@ -1272,3 +1272,85 @@ def desc1(cfg, which='all'):
             res.find(f, loc, '%s: %s - keys below a node with a prefix (or at depth > 0) are looked up, filed or split under the wrong bytes' % (name, why), key='DESC-1:%s' % f.short, config=cfg.name)
     res.floor('descent functions', {'all': 16, 'point': 12, 'seek': 4}[which])
     return res
+
+
+# ---------------------------------------------------------------------------------------------------------------- TYPE-1
+def type1(cfg, which='all'):
+    res = RuleResult('TYPE-1', 'a tagged node pointer is reinterpreted according to its tag: every ptr<leaf*>() on a node pointer is taken where a test of that pointer\'s type tag against LEAF is known TRUE, every ptr<inode*>() where it is known FALSE (control dependence on the test, through a local holding the tag); a reinterpretation under the wrong outcome of the test treats a leaf as an inner node or vice versa (wild reads, wrong answers)')
+    n = 0
+    for f in cfg.functions:
+        if not f.blocks or f.basefile not in ('art.hpp', 'olc_art.hpp'):
+            continue
+        if which != 'all' and (which == 'scan') != ('::iterator::' in f.sig):
+            continue
+        inits = _inits(f)
+
+        def tag_source(o, depth=0):
+            """variable whose tag the operand is: `X.type()` -> did of X, through locals"""
+            x = f.strip_casts(o)
+            if not isinstance(x, dict) or depth > 4:
+                return None
+            if x.get('k') == 'ref' and x.get('vk') in ('local',) and x.get('did') in inits:
+                return tag_source(inits[x['did']], depth + 1)
+            if x.get('k') == 'unop' and x.get('op') == '*':
+                r = f.ref_of(x['sub'])
+                if not r:
+                    return None
+                # an out-parameter holding the tag: `*child_type = child->type();`
+                for b2, i2, e2 in f.elements():
+                    if e2.get('k') == 'binop' and e2.get('op') == '=':
+                        l2 = f.strip_casts(e2['l'])
+                        if isinstance(l2, dict) and l2.get('k') == 'unop' and l2.get('op') == '*' and (f.ref_of(l2['sub']) or (None,))[0] == r[0]:
+                            return tag_source(e2['r'], depth + 1)
+                return None
+            if x.get('k') == 'call' and x.get('name') == 'type' and 'basic_node_ptr<' in (x.get('cls') or '') and x.get('obj') is not None:
+                r = f.ref_of(x['obj'])
+                if r:
+                    return ('var', r[0])
+                y = f.strip_casts(x['obj'])
+                if isinstance(y, dict) and y.get('k') == 'unop' and y.get('op') == '*':
+                    r2 = f.ref_of(y['sub'])
+                    return ('var', r2[0]) if r2 else None
+            return None
+
+        def is_leaf_const(o):
+            x = f.strip_casts(o)
+            return isinstance(x, dict) and x.get('k') == 'ref' and x.get('name') == 'LEAF'
+        for b, i, e in f.elements():
+            if e.get('k') != 'call' or e.get('name') != 'ptr' or 'basic_node_ptr<' not in (e.get('cls') or '') or e.get('obj') is None or is_assert_elem(e):
+                continue
+            cal = e.get('callee') or ''
+            as_leaf = 'basic_leaf<' in cal
+            as_inode = 'inode' in cal.split('::ptr<')[-1] if '::ptr<' in cal else False
+            if not (as_leaf or as_inode):
+                continue
+            r = f.ref_of(e['obj'])
+            var = r[0] if r else None
+            if var is None:
+                y = f.strip_casts(e['obj'])
+                if isinstance(y, dict) and y.get('k') == 'unop' and y.get('op') == '*':
+                    r2 = f.ref_of(y['sub'])
+                    var = r2[0] if r2 else None
+            if var is None:
+                continue
+            verdicts = []
+            for c, val, cb in control_conditions(f, b):
+                if isinstance(c, dict) and c.get('k') == 'binop' and c.get('op') in ('==', '!='):
+                    for a, z in ((c['l'], c['r']), (c['r'], c['l'])):
+                        if is_leaf_const(z):
+                            ts = tag_source(a)
+                            # the tag variable may describe the same node through another variable (node = child; node_type = child_type)
+                            if ts is not None and ts[1] == var:
+                                is_leaf = (c['op'] == '==') == bool(val)
+                                verdicts.append(is_leaf)
+            if not verdicts:
+                continue
+            n += 1
+            res.functions.add(f.sig)
+            ok = all(v == as_leaf for v in verdicts)
+            res.ob(ok, {'rule': 'TYPE-1', 'function': sh(f.name)[:80], 'site': fileline(e.get('loc')), 'as': 'leaf' if as_leaf else 'inode', 'verdict': 'discharged' if ok else 'VIOLATION'})
+            if not ok:
+                res.find(f, e.get('loc'), '%s: the node pointer is reinterpreted as %s on a path on which its type tag has just been tested to be %s - a leaf would be walked as an inner node (or an inner node read as a leaf): wrong answers or wild memory accesses' % (f.short, 'a leaf' if as_leaf else 'an inner node', 'an inner node' if as_leaf else 'LEAF'), key='TYPE-1:%s:%s' % (f.short, 'leaf' if as_leaf else 'inode'), config=cfg.name)
+    res.count('tag-guarded reinterpretations', n)
+    res.floor('tag-guarded reinterpretations', {'all': 30, 'point': 12, 'scan': 12}[which])
+    return res
